@@ -18,15 +18,17 @@
    * the decoration moved onto the parsed definition D (C14_alias_attributes_pre / _repeat_pre / _text_pre /
      _self_closing_pre, and _children_pre under the side condition that no node on D's last-child chain resolves
      to nothing -- C14_dead_chain_differs shows it is needed).
-   NOT proved for all tables: that the TEXT `d>c` (resp. d with the attributes / `*N` written on its top-level
-   elements) parses to D with c hung below find_deepest (resp. D with the decoration): this is a
-   compositionality theorem for tokenizer + parser + converter with the side conditions of the code -- d ends
-   with an element, not a text node (the converter makes the children of a text-only node its siblings), no
-   repeater on the last-child chain (`x*2>b` repeats b), no group at the end; these textual forms are covered
-   by the sweep (built-in tables) and by the random user tables of the harness. *)
+   * `k>c` = `d>c` as strings (C14_alias_child_eq_definition_child) under the reading hypothesis that the text `d>c`
+     parses to D with c hung below find_deepest; C14_child_reads_below_flat proves that hypothesis (parser +
+     converter) for definitions without groups that end with an element which is not a text node, without
+     repeater on the last-child chain, GIVEN that the tokenizer reads `d>c` as the tokens of d, `>`, c.
+   NOT proved for all tables: that tokenizer fact (appending `>c` does not change the tokens of d); definitions
+   with groups; and the textual forms of the other decorations (d with the attributes / `*N` written on its
+   top-level elements parses to D with the decoration).  These textual forms are covered by the sweep
+   (built-in tables) and by the random user tables of the harness. *)
 From Emmet Require Import lib.Base model.MarkupTokenizer model.MarkupParser model.MarkupConvert
-     model.MarkupResolve model.MarkupExpand proofs.SnippetProofs proofs.SnippetSweep
-     proofs.SnippetAcyclic proofs.SnippetAliasParse proofs.SnippetAliasForms proofs.SnippetDecorate proofs.SnippetChildString.
+     model.MarkupResolve model.MarkupExpand proofs.ParserSpine proofs.SnippetProofs proofs.SnippetSweep
+     proofs.SnippetAcyclic proofs.SnippetAliasParse proofs.SnippetAliasForms proofs.SnippetDecorate proofs.SnippetChildString proofs.SnippetChildParse.
 
 (* termination, for ALL snippet tables and ALL trees: with the fuel markup_parse supplies
    (number of snippets + 1) the resolver never reports OutOfFuel *)
@@ -426,7 +428,8 @@ Print Assumptions C14_alias_id_string.
    [child_reads_below cfg d c D]: the definition reads as the forest D and the text `d>c` as D with c hung below
    find_deepest -- a statement about tokenizer + parser + converter alone, true when d ends with an element that is
    not a text node, with no repeater on its last-child chain and no group at the end; decidable by evaluation
-   for a concrete d (C14_child_string_nonvacuous); NOT proved from a syntactic description of d. *)
+   for a concrete d (C14_child_string_nonvacuous); C14_child_reads_below_flat derives it from the token structure
+   of d, the tokenizer part excepted. *)
 Theorem C14_alias_child_eq_definition_child :
   forall (cfg : mconfig) (k c d : str) (D R K : list anode),
     key_text k = true -> key_text c = true ->
@@ -453,6 +456,23 @@ Example C14_child_reads_below_fails_text :
   exists D X, parse_def chs_cfg [112;62;123;104;105;125]%N = Ok D /\
               parse_def chs_cfg [112;62;123;104;105;125;62;98]%N = Ok X /\ X <> attach_deepest D [bare [98]%N].
 Proof. exact child_reads_below_fails_text. Qed.
+
+(* the reading hypothesis [child_reads_below], parser + converter part: for every definition whose tokens are a
+   statement without groups (element blocks separated by `>` `+` `^`, [flat1]) ending with an element block l:
+   if appending `>c` leaves the tokens of d unchanged ([tok_ext], the tokenizer part, NOT proved here), no element
+   of the open spine at the end of d (the ancestors of l) and not l itself carries a repeater, and l is not a text
+   node ([elementish]: no text, or attributes, or a literal name), then `d>c` reads as D with c below find_deepest *)
+Theorem C14_child_reads_below_flat :
+  forall (cfg : mconfig) (d : str) (x : char) (xs : str) ys l toks gt ct (D : list anode),
+    tok_ext d (x :: xs) toks gt ct ->
+    flat1 false ys l toks ->
+    (let '(cur, st) := fold_left ParserSpine.step ys (TGroup [] None, []) in spine_norep cur st) ->
+    lf_repeat l = None -> elementish l ->
+    mc_text cfg = WNone ->
+    parse_def cfg d = Ok D ->
+    child_reads_below cfg d (x :: xs) D.
+Proof. exact child_reads_below_flat. Qed.
+Print Assumptions C14_child_reads_below_flat.
 
 (* an alias inside a larger abbreviation: siblings resolve independently (with C14_non_alias_kept for
    the ancestors this places the theorems above at any position below non-alias elements) *)
